@@ -20,7 +20,7 @@ func (c07) NumCases(tier string) int {
 	if tier == "thorough" {
 		return 600_000
 	}
-	return 14_000
+	return 60_000
 }
 
 func (c07) Describe() CheckInfo {
